@@ -30,6 +30,9 @@ type c01World struct {
 	// the in-sync notification was delivered at an instant when the node did not hold every
 	// block announced so far (observed inside the notification, not after the step)
 	inSyncEarly bool
+	// interleavePoll: budget of periodic checks that may run at the interleaving point inside the
+	// block processor (between NextBlock and ProcessBlock)
+	interleavePoll int
 	hooked      *vkRecorder
 }
 
@@ -97,6 +100,16 @@ func (w *c01World) process() {
 					w.poll()
 				}
 				verifrt.Reach("world.interleaved")
+			}
+		}
+	}
+	if w.interleavePoll > 0 {
+		// the periodic check alone may run at the interleaving point (no message needed)
+		vkInterleave = func(point string) {
+			if w.interleavePoll > 0 && verifrt.Choose("interleave: the periodic check runs at "+point, 2) == 1 {
+				w.interleavePoll--
+				w.poll()
+				verifrt.Reach("world.interleaved-check")
 			}
 		}
 	}
